@@ -9,6 +9,7 @@ derivation route and for grow-only indices after any history of appends / extend
  R  behaviours of MC_C02 (TLC -simulate) replayed on a real IndexGO with the abstract state compared after each step.
 '''
 import copy
+import json
 import pickle
 
 import numpy as np
@@ -140,7 +141,7 @@ def observe(ix, absent=(), hier=False):
         absent_hits = []
         for a in absent:
             hit = bool(a in ix)
-            if not (ix._map is None and (isinstance(a, (bool, np.bool_)) or (isinstance(a, int) and a < 0))):      # the map-less form reads a negative integer as a position (C04)
+            if not (getattr(ix, '_map', True) is None and (isinstance(a, (bool, np.bool_)) or (isinstance(a, int) and a < 0))):      # the map-less form reads a negative integer as a position (C04)
                 try:
                     r = ix.loc_to_iloc(a)
                     hit = hit or (isinstance(r, (int, np.integer)) and not isinstance(r, (bool, np.bool_)))       # an absent label must not resolve to a position
@@ -367,6 +368,79 @@ def hier_event(rng):
     return {'kind': 'derive', 'route': route, 'src': rows, 'arg': arg, 'cls': type(ih).__name__, 'obs': attempt(fn)}
 
 
+# ---- hierarchical construction routes: the same rows through every constructor; non-unique / non-tree orders rejected -----
+def _tree_order(rows):
+    keys = []
+    for r in rows:
+        if r[1][0] not in keys:
+            keys.append(r[1][0])
+    return [r for k in keys for r in rows if r[1][0] == k]
+
+
+def hier_ctor_event(rng):
+    outer = rng.sample([['s', 'A'], ['s', 'B'], ['s', 'C']], rng.randint(1, 3))
+    pool = [['i', 1], ['i', 2], ['i', 3]]
+    first = rng.sample(pool, rng.randint(1, 3))
+    product = rng.random() < 0.5
+    rows = [['t', [o, i]] for o in outer for i in (first if product else rng.sample(pool, rng.randint(1, 3)))]
+    flavour = rng.random()
+    shaped = 'tree'
+    if flavour < 0.15 and len(rows) > 2:
+        rng.shuffle(rows)                      # most shuffles are not trees in the given order
+        shaped = 'shuffled'
+    elif flavour < 0.27:
+        rows.insert(rng.randrange(len(rows) + 1), rng.choice(rows))       # a repeated tuple
+        shaped = 'dup'
+    pyrows = [P.dec(r) for r in rows]
+    cls = rng.choice([sf.IndexHierarchy, sf.IndexHierarchy, sf.IndexHierarchyGO])
+    routes = ['ih_from_labels', 'ih_from_type_blocks', 'ih_from_frame_set_index']
+    is_tree = rows == _tree_order(rows) and len({json.dumps(r) for r in rows}) == len(rows)
+    if is_tree:
+        routes += ['ih_from_tree', 'ih_from_index_items']
+        if product:
+            routes += ['ih_from_product', 'ih_from_index_items_shared']
+    if shaped == 'dup' and product:
+        routes += ['ih_from_product_dup_level']
+    route = rng.choice(routes)
+    o_py = []
+    for t in pyrows:          # outer labels in the order of the rows as given
+        if t[0] not in o_py:
+            o_py.append(t[0])
+    inner = {o: [t[1] for t in pyrows if t[0] == o] for o in o_py}
+    if route == 'ih_from_labels':
+        fn = lambda: cls.from_labels(pyrows)
+    elif route == 'ih_from_type_blocks':
+        def fn():
+            a0 = np.array([t[0] for t in pyrows])
+            a1 = np.array([t[1] for t in pyrows])
+            a0.flags.writeable = False
+            a1.flags.writeable = False
+            return cls._from_type_blocks(sf.TypeBlocks.from_blocks((a0, a1)))
+    elif route == 'ih_from_frame_set_index':
+        def fn():
+            f = sf.Frame.from_records([(t[0], t[1], k) for k, t in enumerate(pyrows)], columns=('o', 'i', 'v'))
+            ix = f.set_index_hierarchy(('o', 'i')).index
+            return ix if cls is sf.IndexHierarchy else cls(ix)
+    elif route == 'ih_from_tree':
+        fn = lambda: cls.from_tree({o: inner[o] for o in o_py})
+    elif route == 'ih_from_index_items':
+        fn = lambda: cls.from_index_items((o, sf.Index(inner[o])) for o in o_py)
+    elif route == 'ih_from_index_items_shared':
+        def fn():
+            shared = sf.Index(inner[o_py[0]])
+            return cls.from_index_items((o, shared) for o in o_py)
+    elif route == 'ih_from_product':
+        fn = lambda: cls.from_product(o_py, inner[o_py[0]])
+    else:   # a level label repeated in a product: the rows repeat
+        lv = [P.dec(x) for x in first] + [P.dec(first[0])]
+        rows = [['t', [o, ['i', i]]] for o in outer for i in lv]
+        pyrows = [P.dec(r) for r in rows]
+        fn = lambda: cls.from_product(o_py, lv)
+    present = {json.dumps(r) for r in rows}
+    absent = [['t', [o, i]] for o in [['s', 'A'], ['s', 'B'], ['s', 'Z']] for i in pool + [['i', 9]] if json.dumps(['t', [o, i]]) not in present][:4]
+    return {'kind': 'construct', 'route': route, 'labels': rows, 'cls': cls.__name__, 'obs': attempt(fn, [P.dec(a) for a in absent], hier=True)}
+
+
 # ---- grow-only histories ----------------------------------------------------------------------------------------------------
 def private_state(ix):
     '''the model's state variables read off the object without triggering the deferred rebuild'''
@@ -554,9 +628,12 @@ def main(ctx):
         elif q < 0.72:
             events.append(derive_event(rng))
             ctx.count('V_derive')
-        elif q < 0.80:
+        elif q < 0.78:
             events.append(hier_event(rng))
             ctx.count('V_hier')
+        elif q < 0.82:
+            events.append(hier_ctor_event(rng))
+            ctx.count('V_hier_ctor')
         elif q < 0.86:
             events.append(isolation_event(rng))
             ctx.count('V_isolation')
